@@ -171,6 +171,7 @@ type vfC16World struct {
 	served  sync.Map
 	qseq    int64
 	filt    map[string]bool
+	cut      []*Conn // connections the current step has cut from the node side: quiescence needs the driver to have noticed
 	mismatch bool // a step ended in a state other than the one that came with the history
 	stalled  bool // the session was still busy at the hard limit of a wait
 	debounced int32 // direct mode: a debounced ring refresh has been requested
@@ -521,7 +522,32 @@ func (w *vfC16World) controlIdle() bool {
 }
 
 func (w *vfC16World) idle() bool {
+	for _, c := range w.cut {
+		if !c.Closed() {
+			return false
+		}
+	}
 	return w.poolsIdle() && w.pendingUps() <= 0 && w.controlIdle()
+}
+
+// connsTo: the driver's open connections to the node at abstract address a (pools and control).
+func (w *vfC16World) connsTo(a string) []*Conn {
+	ip := vfC16IP(a)
+	var out []*Conn
+	w.s.pool.mu.RLock()
+	for _, p := range w.s.pool.hostConnPools {
+		if p.host.ConnectAddress().String() != ip {
+			continue
+		}
+		p.mu.RLock()
+		out = append(out, p.conns...)
+		p.mu.RUnlock()
+	}
+	w.s.pool.mu.RUnlock()
+	if ch := w.s.control.getConn(); ch != nil && ch.host.ConnectAddress().String() == ip {
+		out = append(out, ch.conn)
+	}
+	return out
 }
 
 // settle waits for quiescence and projects the state.  The wait ends when the projection equals
@@ -610,6 +636,7 @@ func (w *vfC16World) exec(st *vfC16Step) (errs string, pan string) {
 			pan = fmt.Sprintf("%v", p)
 		}
 	}()
+	w.cut = nil
 	switch st.Op {
 	case "refresh":
 		w.setTruth(st.Rows)
@@ -665,6 +692,7 @@ func (w *vfC16World) exec(st *vfC16Step) (errs string, pan string) {
 	case "nodefail":
 		w.setTruth(st.Rows)
 		w.setDown(st.Addr, true)
+		w.cut = w.connsTo(st.Addr)
 		w.nodes[st.Addr].CloseAll()
 	case "noderecover":
 		w.setTruth(st.Rows)
@@ -678,6 +706,7 @@ func (w *vfC16World) exec(st *vfC16Step) (errs string, pan string) {
 		// the control connection (and every other connection to the control node) is cut; the
 		// node stays reachable
 		w.setTruth(st.Rows)
+		w.cut = w.connsTo("a0")
 		w.nodes["a0"].CloseAll()
 	default:
 		return "badop", ""
